@@ -83,6 +83,32 @@ def validate(ctx, trs, cfg="Trace_StorageLayout", name="trace"):
     return cg.validate_all(ctx, "Trace_StorageLayout", cfg, trs, name=name, shard=100, par=4)
 
 
+def edge_records():
+    """Hand-placed declarations (both tiers): multi-slot values at explicit keys whose low 64-bit words are about to
+    carry when the slot index is added -- into the next word, and across two words.  Ordinary pool records."""
+    U64 = {"n": 0, "k": "u64", "fs": []}
+
+    def struct(n):
+        return {"n": 0, "k": "struct", "fs": [U64] * n}
+
+    def val(n, base):
+        return {"k": "a", "es": [{"t": "u64", "b": list((base + j).to_bytes(8, "little")), "k": "i"} for j in range(n)]}
+
+    def key(n):
+        return list(n.to_bytes(32, "big"))
+    k1 = (1 << 64) | 0xffffffffffffffff                                   # ..0001 ffffffffffffffff : +1 carries into word 2
+    k2 = (1 << 192) | (((1 << 128) - 1) << 64) | 0xfffffffffffffffe      # +2 carries across words 2 and 3 into word 4
+    k3 = 0xfffffffffffffffd                                               # word 1 alone, +3
+    recs = []
+    for n, (ka, kb) in enumerate([(k1, k2), (k3, k1 - 1)]):
+        fields = [{"ns": [], "name": "ea", "key": key(ka), "ty": struct(9), "v": val(9, 100 + n)},
+                  {"ns": [], "name": "eb", "key": key(kb), "ty": struct(5), "v": val(5, 200 + n)}]
+        recs.append({"id": 900001 + n, "fields": fields,
+                     "reads": [[[]] + [[j + 1] for j in range(len(f["ty"]["fs"]))] for f in fields],
+                     "pres": [{"dom": 0, "s": ""}]})
+    return recs
+
+
 def decl_key(rec):
     """Identifies the exact declaration: its rendered storage block."""
     return "decl:" + render_storage(rec["fields"], cg.TypeNamer()).replace("\n", " ")
@@ -114,7 +140,7 @@ def run(ctx):
     if gen.violated:
         raise ToolError("generator invariant violated: %s" % gen.violated)
     pool = sorted(gen.printed("REPLAY"), key=lambda r: r["id"])
-    recs = slice_for_seed(pool, ctx.seed, QUICK_N) if ctx.quick else pool
+    recs = (slice_for_seed(pool, ctx.seed, QUICK_N) if ctx.quick else pool) + edge_records()
     # 3. build, deploy, read
     members = [("c12d%d" % r["id"], render_contract(r)) for r in recs]
     wss = [cg.workspace("c12w%d" % i, ch) for i, ch in enumerate(cg.chunks(members, PER_WS))]
